@@ -24,12 +24,33 @@ def _overtaking(p):
 
 _LISTS = ("lists", "listsib", "listsibT")
 _is_list_plan = lambda p: p.get("src") in _LISTS or any("shape" in st for st in p.get("steps", []))
+_NAMEKEYS = ("db", "coll", "part")
+# histories over the name universe with prefix-related names (c1 / c1_x ...): validated with the larger constants of WriterReady_TraceNames.cfg
+_names_plan = lambda p: p.get("src") == "hsib" or any("_" in (x.get(k) or "") for st in p.get("steps", [])
+                                                        for x in [st] + list(st.get("seed") or []) for k in _NAMEKEYS)
+
+
+def _sibling(p):
+    """within one writer life an operation on a partition of one collection is delivered after the drop of another collection"""
+    dropped = None
+    for s in p.get("steps", []):
+        if s.get("op") == "restart":
+            dropped = None
+        elif s.get("kind") == "dropCollection":
+            dropped = s.get("coll")
+        elif dropped and s.get("part") and s.get("coll") != dropped and s.get("kind") in ("loadPartitions", "releasePartitions"):
+            return True
+    return False
+
+
 C = dict(
     prop="C08", driver="writerready", level="model_checking",
     model_checks=[
         dict(module="WriterReady", cfg="WriterReady_MCq.cfg", tiers=["quick"], workers=8),
         dict(module="WriterReady", cfg="WriterReady_MCq2.cfg", tiers=["quick"], workers=8),
         dict(module="WriterReady", cfg="WriterReady_MC.cfg", tiers=["thorough"], workers=8, timeout=1500),
+        # two collections with prefix-related names (c1 / c1_x)
+        dict(module="WriterReady", cfg="WriterReady_MCsib.cfg", tiers=["thorough"], workers=8),
     ],
     plan_sources=[
         dict(name="lists", module="WriterReq", cfg="WriterReq_PlanQ.cfg", workers=4),
@@ -47,15 +68,20 @@ C = dict(
         dict(name="overr", module="WriterReady", cfg="WriterReady_PlanOverR.cfg", workers=8, tiers=["thorough"], cap={"thorough": 30000}),
         dict(name="hist", module="WriterReady", cfg="WriterReady_PlanHist.cfg", workers=8, tiers=["thorough"]),
         dict(name="hist2", module="WriterReady", cfg="WriterReady_PlanHist2.cfg", workers=8, tiers=["thorough"]),
+        # two collections with prefix-related names: of the 6-step histories with restarts only those are replayed in which a
+        # partition operation on one collection follows the drop of the other within one writer life (expand_plans); the quick tier
+        # has the directed plans d-sibling-* of this family
+        dict(name="hsib", module="WriterReady", cfg="WriterReady_PlanSibQ.cfg", workers=8, tiers=["thorough"]),
         dict(name="sim", module="WriterReady", cfg="WriterReady_PlanSim.cfg", simulate={"quick": 200, "thorough": 8000},
              depth=40, cap={"quick": 400, "thorough": 60000}),
     ],
     # every third history also runs under a whole-database name mapping (the downstream holds the objects under the mapped
     # database, the writer's create / drop tables stay keyed by source names)
     expand_plans=lambda plans, tier: [q for i, p in enumerate([x for x in plans if (x.get("src") not in _LISTS or _listish(x))
-                                                                 and (x.get("src") not in ("overq", "over", "overr") or _overtaking(x))]) for q in
+                                                                 and (x.get("src") not in ("overq", "over", "overr") or _overtaking(x))
+                                                                 and (x.get("src") != "hsib" or _sibling(x))]) for q in
                                       ([p] + ([dict(p, plan=str(p["plan"]) + "-map", params=dict(p.get("params") or {}, dbmap="x_"))]
-                                              if p.get("src") not in ("cases",) + _LISTS and (i % 3 == 0 or p.get("src") == "directed") else []))],
+                                              if p.get("src") not in ("cases",) + _LISTS and not _is_list_plan(p) and (i % 3 == 0 or p.get("src") == "directed") else []))],
     directed="plans/C08.jsonl",
     # list operations (flush / load / release partitions with live and dropped members, dropped parents): the message classes of
     # WriterReq.tla replayed by the C20 driver, judged here by C08's statement only (acceptor WriterReq_Trace with PROP=C08)
@@ -95,15 +121,21 @@ def run(tier, replay=None):
         #  ProbeTs          - swapped deliveries: a probe that records the probing operation's stamp as creation time
         #  NoProbeAfterDrop - overtaking operations / rejected re-creations: "create < drop < t, both recorded" answered
         #                     "created" instead of probing (the request is sent for an incarnation nobody has seen)
-        ctl = [("WriterReady_ProbeTs.cfg", "out-of-order delivery"), ("WriterReady_NoProbeAfterDrop.cfg", "an operation overtaking the re-creation")]
+        #  GcByPrefix (WriterReq) / GcPrefix (WriterReady, thorough tier) - sibling drops: drop records garbage-collected by key prefix
+        ctl = [("WriterReady", "WriterReady_ProbeTs.cfg", "Contract", "out-of-order delivery"),
+               ("WriterReady", "WriterReady_NoProbeAfterDrop.cfg", "Contract", "an operation overtaking the re-creation"),
+               ("WriterReq", "WriterReq_GcPrefix.cfg", "ContractHolds", "the drop of a sibling with a prefix-related name (list operations)")]
+        if tier == "thorough":
+            ctl.append(("WriterReady", "WriterReady_GcPrefix.cfg", "Contract", "the drop of a sibling collection (histories)"))
         with ThreadPoolExecutor(len(ctl)) as ex:
-            rs = list(ex.map(lambda c: vlib.run_tlc("WriterReady", c[0], workers=4, timeout=300, tag="WriterReady-ctl-" + c[0][:-4]), ctl))
-        for (cfg, what), r in zip(ctl, rs):
-            if "Contract" not in r.violated:
+            rs = list(ex.map(lambda c: vlib.run_tlc(c[0], c[1], workers=4, timeout=300, tag=c[0] + "-ctl-" + c[1][:-4]), ctl))
+        for (mod, cfg, inv, what), r in zip(ctl, rs):
+            if inv not in r.violated:
                 raise vlib.Inconclusive("%s no longer violates the contract: %s is vacuous" % (cfg, what))
-            vlib.log("[tlc] WriterReady/%s: violates Contract as expected" % cfg)
+            vlib.log("[tlc] %s/%s: violates %s as expected" % (mod, cfg, inv))
     c = dict(C)
     c["driver_of"] = lambda p: "writerreq" if _is_list_plan(p) else "writerready"
     c["trace_of"] = lambda p: (("WriterReq_Trace", "WriterReq_Trace.cfg", {"PROP": "C08"}) if _is_list_plan(p)
+                               else ("WriterReady_Trace", "WriterReady_TraceNames.cfg", {}) if _names_plan(p)
                                else ("WriterReady_Trace", "WriterReady_Trace.cfg", {}))
     return flow.standard_flow(c, tier, replay)
